@@ -336,12 +336,16 @@ def judge(case, impl, reply):
     if k == "str":
         if impl["parts"] != reply["parts"]:
             return Verdict("violation", f"SigmaString({src!r}) parses to {show(impl['parts'])!r}, the Sigma escaping rules give {show(reply['parts'])!r}", nt, key, tags=tags)
+        drift = None
+        known = None
         if impl["reparse"] != impl["parts"]:
             # the plain form is not injective: class D3 = a literal backslash immediately before a backslash, wildcard character or wildcard
             fid = "D3" if _d3_class(impl["parts"]) else None
-            return Verdict("violation", f"plain form of {src!r} is {uncps(impl['plain'])!r} which re-parses to {show(impl['reparse'])!r} instead of {show(impl['parts'])!r}",
-                           nt, key, finding=fid, tags=tags + ("plain-lossy",))
-        drift = None
+            v_ = Verdict("violation", f"plain form of {src!r} is {uncps(impl['plain'])!r} which re-parses to {show(impl['reparse'])!r} instead of {show(impl['parts'])!r}",
+                         nt, key, finding=fid, tags=tags + ("plain-lossy",))
+            if fid is None:
+                return v_
+            known = v_            # recorded; the renderings of the same value are still judged below
         for r, d in zip(impl["convs"], reply["convs"]):
             cfg = CFG_BY_NAME[r["cfg"]]
             if r.get("how"):
@@ -359,12 +363,21 @@ def judge(case, impl, reply):
                 return Verdict("violation", (f"{src!r} under {cfg['name']}: emitted without quotes as {uncps(r['text'])!r} although it contains a character "
                                              f"that ends a bare token (quoting is decided by str_quote_pattern)"), nt, key, tags=tags + (f"cfg:{cfg['name']}",))
             if d["implReadOk"] is not True:
-                fid = "D7" if not d["escInSet"] else None
-                return Verdict("violation", (f"{src!r} under {cfg['name']}: emitted {uncps(r['text'])!r}, which the target reads as "
-                                             f"{show(d['implRead']) if d['implRead'] is not None else 'malformed/terminated early'!r} instead of {show(d['want'])!r}"),
-                               nt, key, finding=fid, tags=tags + (f"cfg:{cfg['name']}",))
+                # D7 = the escape character itself is not escaped when the configuration does not list it: only where the value
+                # contains that character literally, and only the rendering the model of the code predicts
+                esc_literal = cfg["esc"] is not None and ord(cfg["esc"]) in [p_ for p_ in impl["parts"] if isinstance(p_, int)]
+                fid = "D7" if (not d["escInSet"] and esc_literal and d["model"] == r["text"]) else None
+                v_ = Verdict("violation", (f"{src!r} under {cfg['name']}: emitted {uncps(r['text'])!r}, which the target reads as "
+                                           f"{show(d['implRead']) if d['implRead'] is not None else 'malformed/terminated early'!r} instead of {show(d['want'])!r}"),
+                             nt, key, finding=fid, tags=tags + (f"cfg:{cfg['name']}",))
+                if fid is None:
+                    return v_                      # an unclassified violation is reported at once
+                known = known or v_                # a known finding must not hide a violation under another configuration
+                continue
             if d["model"] != r["text"]:
                 drift = f"{src!r} under {cfg['name']}: model text {uncps(d['model'])!r} vs impl {uncps(r['text'])!r}"
+        if known is not None:
+            return known
         if impl["plain"] != reply["plain"]:
             drift = f"plain form differs from model for {src!r}"
         return Verdict("drift" if drift else "ok", drift or "", nt, key, tags=tags)
